@@ -94,9 +94,14 @@ var crsForms = []string{
 	`{"referenceSystem":{}}`,
 	`"urn:ogc:def:crs:EPSG::2193"`,
 	`"not a uri"`,
+	// other spellings people write for a CRS: (safe) CURIEs, bare codes, brackets and separators without a second part
+	`"[EPSG:28992]"`, `"[EPSG]"`, `"[]"`, `"["`, `"EPSG:28992"`, `"EPSG:"`, `":28992"`, `"EPSG"`, `"28992"`, `"urn:ogc:def:crs:EPSG:"`, `"http://www.opengis.net/def/crs/EPSG/0/"`, `"http://www.opengis.net/def/crs/"`, `"/"`, `"::"`, `""`,
+	`{"uri":"[EPSG]"}`, `{"uri":""}`, `{"uri":"EPSG:28992"}`,
 }
 
-var extremeIDs = []string{`"9223372036854775807"`, `"-9223372036854775808"`, `"-9223372036854775807"`, `"9223372036854775806"`, `"-1"`, `"4611686018427387904"`}
+var extremeIDs = []string{`"9223372036854775807"`, `"-9223372036854775808"`, `"-9223372036854775807"`, `"9223372036854775806"`, `"-1"`, `"4611686018427387904"`,
+	// identifiers as other tile services spell them: prefixed, padded, signed, in another base - integers to a lenient reader, not to this one
+	`"EPSG:28992:12"`, `"a:3"`, `":7"`, `"7:"`, `"z7"`, `"7z"`, `" 7"`, `"7 "`, `"07"`, `"+7"`, `"0x10"`, `"1e1"`, `"7.0"`, `"1_0"`, `"٧"`, `""`}
 
 var replacementValues = []string{`null`, `true`, `0`, `-1`, `0.5`, `1.5`, `9007199254740992`, `-9007199254740992`, `2`, `256`, `"x"`, `""`, `"12"`, `"1.5"`, `"-3"`, `[]`, `{}`, `[1,"a"]`, `[1,2,3]`, `[1]`, `{"a":1}`}
 
